@@ -28,7 +28,10 @@ def run(ctx):
         exh += [("c34_exh_stash_thorough.cfg", {"timeout": 3 * 3600}), ("c34_exh_checkout_thorough.cfg", {"timeout": 3 * 3600})]
     bi.run(ctx, exh=exh,
            sims=[{"cfg": ctx.q("c34_sim_quick.cfg", "c34_sim_thorough.cfg"), "num": ctx.q(120, 400), "depth": ctx.q(30, 45),
-                  "obs": [], "bindings": ctx.q(BQ, BT)}],
+                  "obs": [], "bindings": ctx.q(BQ, BT)},
+                 # dense checkout --move generator (uncommitted drops / edits / new tables meeting a branch switch)
+                 {"cfg": ctx.q("c34_sim_move_quick.cfg", "c34_sim_move_thorough.cfg"), "num": ctx.q(64, 200), "depth": ctx.q(22, 30),
+                  "obs": [], "bindings": ctx.q(BQ, BT), "seed_off": 500}],
            critical_acts=["StashPop:ok", "CheckoutMove:ok"],
            require_hist=["StashPush:ok", "StashPop:ok", "StashDrop:ok", "ResetHard:ok", "ResetSoft:ok", "ResetMixed:ok", "ResetStaged:ok",
                          "CheckoutSession:ok", "CheckoutMove:ok", "CheckoutTable:ok"],
